@@ -255,6 +255,88 @@ theorem mRun_inv (s : MSys) (steps : List MStep) (h : MInv s) : MInv (mRun s ste
 
 theorem mInit_inv : MInv {} := ⟨rfl, by simp, by simp, by simp, rfl⟩
 
+/-- release steps only -/
+def IsRelease : MStep → Bool
+  | .endRead _ => true
+  | .endWrite _ => true
+  | _ => false
+
+theorem release_step_lists (s : MSys) (st : MStep) (h : IsRelease st = true) :
+    (mStep s st).readers = (match st with | .endRead c => s.readers.erase c | _ => s.readers) ∧
+    (mStep s st).writers = (match st with | .endWrite c => s.writers.erase c | _ => s.writers) := by
+  cases st with
+  | endRead c =>
+    simp only [mStep]
+    split
+    · simp only [notePanic]; split <;> exact ⟨rfl, rfl⟩
+    · rename_i hm; exact ⟨(List.erase_of_not_mem hm).symm, rfl⟩
+  | endWrite c =>
+    simp only [mStep]
+    split
+    · simp only [notePanic]; split <;> exact ⟨rfl, rfl⟩
+    · rename_i hm; exact ⟨rfl, (List.erase_of_not_mem hm).symm⟩
+  | beginRead c => simp [IsRelease] at h
+  | beginReadBlocking c => simp [IsRelease] at h
+  | beginWrite c o => simp [IsRelease] at h
+  | beginWriteBlocking c o => simp [IsRelease] at h
+  | upgrade c o => simp [IsRelease] at h
+
+theorem run_releases (sched : List MStep) (s : MSys) (hrel : ∀ st ∈ sched, IsRelease st = true)
+    (hr : ∀ c, s.readers.count c ≤ sched.count (.endRead c))
+    (hw : ∀ c, s.writers.count c ≤ sched.count (.endWrite c)) :
+    (mRun s sched).readers = [] ∧ (mRun s sched).writers = [] := by
+  induction sched generalizing s with
+  | nil =>
+    simp only [List.count_nil, Nat.le_zero_eq] at hr hw
+    show s.readers = [] ∧ s.writers = []
+    exact ⟨List.eq_nil_iff_forall_not_mem.2 (fun c hc => by have := List.count_pos_iff.2 hc; have := hr c; omega),
+           List.eq_nil_iff_forall_not_mem.2 (fun c hc => by have := List.count_pos_iff.2 hc; have := hw c; omega)⟩
+  | cons st rest ih =>
+    simp only [mRun, List.foldl_cons]
+    obtain ⟨e1, e2⟩ := release_step_lists s st (hrel st List.mem_cons_self)
+    apply ih _ (fun x hx => hrel x (List.mem_cons_of_mem _ hx))
+    · intro c
+      rw [e1]
+      have := hr c
+      cases st with
+      | endRead d =>
+        simp only [List.count_cons] at this
+        by_cases hcd : d = c
+        · subst hcd
+          simp only [List.count_erase_self]
+          simp at this; omega
+        · have hne : (MStep.endRead d == MStep.endRead c) = false := by simp [hcd]
+          simp only [hne] at this
+          rw [List.count_erase_of_ne (Ne.symm hcd)]
+          simpa using this
+      | endWrite d => simp only [List.count_cons] at this; simpa using this
+      | beginRead d => simp [IsRelease] at hrel
+      | beginReadBlocking d => simp [IsRelease] at hrel
+      | beginWrite d o => simp [IsRelease] at hrel
+      | beginWriteBlocking d o => simp [IsRelease] at hrel
+      | upgrade d o => simp [IsRelease] at hrel
+    · intro c
+      rw [e2]
+      have := hw c
+      cases st with
+      | endWrite d =>
+        simp only [List.count_cons] at this
+        by_cases hcd : d = c
+        · subst hcd
+          simp only [List.count_erase_self]
+          simp at this; omega
+        · have hne : (MStep.endWrite d == MStep.endWrite c) = false := by simp [hcd]
+          simp only [hne] at this
+          rw [List.count_erase_of_ne (Ne.symm hcd)]
+          simpa using this
+      | endRead d => simp only [List.count_cons] at this; simpa using this
+      | beginRead d => simp [IsRelease] at hrel
+      | beginReadBlocking d => simp [IsRelease] at hrel
+      | beginWrite d o => simp [IsRelease] at hrel
+      | beginWriteBlocking d o => simp [IsRelease] at hrel
+      | upgrade d o => simp [IsRelease] at hrel
+
+
 /-! ### ReadyTarget -/
 
 structure RtSys where
